@@ -139,6 +139,15 @@ Theorem C09_refuted_rounding_ratio :
 Proof. vm_compute. reflexivity. Qed.
 Print Assumptions C09_refuted_rounding_ratio.
 
+(* ... stated with the values: the two operands compare = although the double is not 1/3
+   (it is 6004799503160661 / 2^54) *)
+Theorem C09_refuted_rounding_ratio_values :
+  num_eq Debug (Rational 1 3) (Float (f64_of_bits 0x3fd5555555555555)) = Ok true /\
+  f64_value_is (f64_of_bits 0x3fd5555555555555) (1 # 3) = false /\
+  f64_value_is (f64_of_bits 0x3fd5555555555555) (6004799503160661 # 18014398509481984) = true.
+Proof. repeat split; vm_compute; reflexivity. Qed.
+Print Assumptions C09_refuted_rounding_ratio_values.
+
 (* ---- cmp_exact for the 7 representation pairs that involve a Float.
    The statement first written by the "num" package (kept below, REFUTED) quantifies over an
    arbitrary valuation [fval] of doubles and has no side condition, so it is false twice over:
